@@ -368,6 +368,8 @@ pub fn run(ctx: &Ctx, rep: &mut Report) {
             return;
         }
     }
+    // half of the sessions: the second fresh-VM run collects every 1..23 instructions
+    crate::engines::c01::SECOND_RUN_COLLECTS_EVERY.store(23, std::sync::atomic::Ordering::Relaxed);
     let n = ctx.cases(10_000, 300_000);
     for index in ctx.indices(n) {
         let mut rng = ctx.rng("c05", index);
